@@ -75,7 +75,7 @@ def handle (rep : Report) (ln : Nat) (toks : List String) (obs : String) : Repor
       | none => rep.msg s!"BAD line={ln} (effective line for a rejected config)"
       | some c =>
         let e := effective dMin dMax dWm (some c)
-        let mine := s!"{canonCfg e} tbl={tableStr e} det={if detection e then 1 else 0} mutated=0 aliased=0 second=same"
+        let mine := s!"{canonCfg e} tbl={tableStr e} det={if detection e then 1 else 0} mutated=0 aliased=0 second=same acts=1"
         let rep := rep.bump "cfg.effective"
         let rep := if (c.channelPool.map (·.minSize)).getD 0 == 0 then rep.bump "cfg.default_min" else rep
         let rep := if !(tableStr e).isEmpty then rep.bump "cfg.nonempty_method_table" else rep
@@ -88,6 +88,8 @@ def handle (rep : Report) (ln : Nat) (toks : List String) (obs : String) : Repor
         let rep := if obs.startsWith (canonCfg e ++ " tbl=") then rep else fail rep ln "effective_config"
         let rep := if oa.contains s!"tbl={tableStr e}" then rep else fail rep ln "method_table"
         let rep := if oa.contains s!"det={if detection e then 1 else 0}" then rep else fail rep ln "detection_switch"
+        -- the balancer acts on the effective values: the low watermark is at least 1, an idle READY channel takes a call
+        let rep := if oa.contains "acts=1" then rep else fail rep ln "effective_config_acted_on"
         if mine == obs then rep else { rep.msg s!"DIVERGE line={ln} model={mine} impl={obs}" with diverged := rep.diverged + 1 }
     | _ => rep.msg s!"BAD line={ln}"
 
